@@ -22,6 +22,7 @@ TIMEOUT = {"quick": 1500, "thorough": 7200}
 KINDS = {
     "std": (2, ["-m", "mae", "-x", "leadtime"]),
     "std5": (5, ["-m", "mae", "-x", "leadtime"]),      # more lines than entries in the style lists: each list repeats by its own length
+    "stdgap": (2, ["-m", "mae", "-x", "leadtime"]),      # one lead time in the middle has no valid case (a gap in every line)
     "loc": (2, ["-m", "mae", "-x", "location"]),
     "map": (2, ["-m", "mae", "-type", "map"]),
     "pithist": (2, ["-m", "pithist"]),
@@ -408,6 +409,26 @@ def _ann(fig, kind):
 def p_a(fig, kind, info):
     if not _ann(fig, kind):
         return "-a produced no annotation"
+    if kind in ("std", "std5", "stdgap"):
+        # every annotation sits on its own point and says "<score> <lead time>" of that point
+        ax = main_axes(fig, kind)[0]
+        pts = set()
+        for l in ax.get_lines():
+            for x, y in zip(l.get_xdata(), l.get_ydata()):
+                if x == x and y == y:
+                    pts.add(("%g" % y, "%g" % x))
+        for t in ax.texts:
+            x, y = t.get_position()
+            parts = t.get_text().split()
+            if len(parts) != 2:
+                return "annotation text %r is not '<score> <lead time>'" % t.get_text()
+            if parts != ["%g" % y, "%g" % x]:
+                return "the annotation at (%g, %g) says %r" % (x, y, t.get_text())
+            if (parts[0], parts[1]) not in pts:
+                return "annotation %r at (%g, %g) is not on a plotted point" % (t.get_text(), x, y)
+        n_pts = len(pts)
+        if len(set((t.get_position()) for t in ax.texts)) < min(n_pts, 2):
+            return "%d points are plotted but only %d are annotated" % (n_pts, len(ax.texts))
 
 
 def make_af(field):
@@ -452,7 +473,7 @@ OPTIONS = {
     "labfs": (["-labfs", "11"], ["std", "loc", "pithist", "igncontrib", "against"], p_labfs, None),
     "tickfs": (["-tickfs", "9"], ["std", "loc", "pithist", "igncontrib", "against"], p_tickfs, None),
     "titlefs": (["-title", "My_title_1", "-titlefs", "23"], ["std", "loc", "pithist"], p_titlefs, "title"),
-    "afs": (["-a", "-afs", "5"], ["std", "loc"], p_afs, "a"),
+    "afs": (["-a", "-afs", "5"], ["std", "stdgap", "loc"], p_afs, "a"),
     "gc": (["-gc", "red"], ["std", "loc", "pithist", "igncontrib", "against"], p_gc, "grid1"),
     "gs": (["-gs", ":"], ["std", "loc", "pithist", "igncontrib", "against"], p_gs, "grid2"),
     "gw": (["-gw", "3"], ["std", "loc", "pithist", "igncontrib", "against"], p_gw, "grid3"),
@@ -468,7 +489,7 @@ OPTIONS = {
     "left0": (["-left", "0"], ["std", "loc", "pithist"], p_left0, "margin"),
     "bottom0": (["-bottom", "0"], ["std", "loc", "pithist"], p_bottom0, "margin4"),
     "nomargin": (["-nomargin"], ["std", "loc", "pithist"], p_nomargin, "nomargin"),
-    "a": (["-a"], ["std", "loc"], p_a, "a"),
+    "a": (["-a"], ["std", "std5", "stdgap", "loc"], p_a, "a"),
     "af-lat": (["-a", "-af", "lat"], ["loc"], make_af("lat"), "a"),
     "af-lon": (["-a", "-af", "lon"], ["loc"], make_af("lon"), "a"),
     "af-elev": (["-a", "-af", "elev"], ["loc"], make_af("elev"), "a"),
@@ -506,15 +527,21 @@ def plan(tier, seed):
 _files = {}
 
 
-def files_for(ctx, seed, F):
-    key = (seed, F)
+def files_for(ctx, seed, F, gap=False):
+    key = (seed, F, gap)
     if key not in _files:
         rng = random.Random("C17-data-%s-%s" % (seed, F))
-        d = os.path.join(ctx.workdir, "data%d" % F)
+        d = os.path.join(ctx.workdir, "data%d%s" % (F, "gap" if gap else ""))
         os.makedirs(d, exist_ok=True)
         ds = gen.make_dataset(rng, n_inputs=F, fmt="text", prob=True, pit=True, miss=0.05, sparse=0.0, same_dims=True,
                               thresholds=[0.0, 5.0, 10.0], quantiles=[0.1, 0.5, 0.9], max_t=4, max_l=5, max_s=4, vrange=(1, 14),
                               leadtime_pool=[0, 6, 12, 18, 24, 30, 36, 48])
+        if gap:
+            l_gap = sorted(ds["inputs"][0]["leadtimes"])[1]
+            for inp in ds["inputs"]:
+                for k_, c_ in inp["cells"].items():
+                    if k_.split("|")[1] == gen.fnum(l_gap):
+                        c_["obs"] = None
         paths, _ = gen.materialize(ds, d, None)
         from vmon import refmodel
         _files[key] = (ds, paths, refmodel.common_dims(ds)[2])
@@ -531,7 +558,7 @@ def png_size(path):
 def run_figure(ctx, kind, names, seed, tag):
     """Produce the figure with the given options; returns (fig, info) or (None, reason)."""
     F, base = KINDS[kind]
-    ds, paths, locs = files_for(ctx, seed, F)
+    ds, paths, locs = files_for(ctx, seed, F, gap=(kind == "stdgap"))
     argv = list(base)
     legnames = ["Name %d" % i for i in range(F)]
     for n in names:
@@ -615,7 +642,7 @@ def run_subsets(desc, ctx):
     rng = random.Random("C17-sub-%s-%s" % (desc["seed"], desc["k"]))
     df = default_failures(ctx, desc["seed"])
     for ci in range(desc["n"]):
-        kind = rng.choice(["std", "std", "std5", "loc", "loc", "map", "pithist", "igncontrib", "against"])
+        kind = rng.choice(["std", "std", "std5", "stdgap", "loc", "loc", "map", "pithist", "igncontrib", "against"])
         cand = [n for n in OPTIONS if kind in OPTIONS[n][1]]
         for _ in range(30):
             names = rng.sample(cand, min(len(cand), rng.randint(2, 7)))
@@ -640,7 +667,7 @@ def run_pairs(desc, ctx):
     i = 0
     for fam in FAMILIES:
         for a, b in itertools.combinations(fam, 2):
-            for kind in ("std", "std5", "pithist"):
+            for kind in ("std", "std5", "stdgap", "pithist"):
                 if kind not in OPTIONS[a][1] or kind not in OPTIONS[b][1] or not compatible([a, b]):
                     continue
                 i += 1
